@@ -61,7 +61,7 @@ def _tree_hash(paths, extra=""):
             files = []
             for d, _, fs in os.walk(root):
                 for f in fs:
-                    if f.endswith((".c", ".h", ".py", ".sh")):
+                    if f.endswith((".c", ".h", ".inc", ".sh")):
                         files.append(os.path.join(d, f))
         for f in sorted(files):
             h.update(f.encode())
